@@ -347,6 +347,28 @@ fn nested_case(rng: &mut Rng, idx: u64, out: &mut Out) {
             out.viol("add:nested:mismatch-accepted", format!("add_inplace accepted nested lists of {} and {} tensors", parts, parts + 1), J::Null);
         }
         out.count("mismatched_pairs_tried", 1);
+        // equal list length, one member of the same rank but another extent
+        let k = rng.range(0, parts - 1);
+        let mut d2 = dims_list[k].clone();
+        let ax = rng.range(0, d2.len() - 1);
+        d2[ax] = if d2[ax] > 1 && rng.bool() { d2[ax] - 1 } else { d2[ax] + 1 };
+        let before: Vec<f32> = a_list.iter().flatten().cloned().collect();
+        let mut t = Tensor::nested(dims_list.iter().zip(a_list.iter()).map(|(d, a)| mk(d, a)).collect());
+        let other: Vec<Tensor> = dims_list.iter().zip(b_list.iter()).enumerate().map(|(i, (d, b))| if i == k { mk(&d2, &vec![1.5; product(&d2)]) } else { mk(d, b) }).collect();
+        let u = Tensor::nested(other);
+        let r = std::panic::catch_unwind(std::panic::AssertUnwindSafe(|| t.add_inplace(&u)));
+        out.count("mismatched_pairs_tried", 1);
+        if r.is_ok() {
+            out.viol("add:nested:member-mismatch-accepted", format!("add_inplace accepted nested lists whose member {} has shapes {:?} and {:?}", k, dims_list[k], d2), J::Null);
+        } else {
+            // members before the offending one may already have been added (the operation is
+            // in place and refuses by panicking), but nothing may be written into or beyond it
+            let after = flat(&t);
+            let off: usize = dims_list[..k].iter().map(|d| product(d)).sum();
+            if after.len() != before.len() || !crate::lib_build::bits_eq(&after[off..], &before[off..]) {
+                out.viol("add:nested:member-mismatch-partial", format!("add_inplace refused member {} ({:?} vs {:?}) but modified it or later members", k, dims_list[k], d2), J::Null);
+            }
+        }
     }
 }
 
@@ -438,7 +460,7 @@ impl Monitor for C15 {
         vec![("binary", 8000 * k), ("mismatch", 4000 * k), ("scalar", 3000 * k), ("mean", 3000 * k), ("nested", 1500 * k), ("linalg", 2000 * k)]
     }
     fn rule(&self) -> &'static str {
-        "binary: (op in add/sub/mul/hadamard) x (rank 1..4) x (content family: random, special values incl. +-0, denormals, +-MAX, overflowing products, bit-pattern denormals, log-scaled) on random shapes with extents 1..5: result bit-equal to the IEEE f32 operation performed by the harness (any association for the scaled Hadamard product), bit-identical to the same operation on the numbers laid out as a vector (rank-generic), shape unchanged. mismatch: same ops + mean on operand pairs of different extent or rank (incl. equal element count in another rank): must panic and leave the left operand untouched. scalar: division by scalars incl. 0, tiny, huge + clamp. mean: k = 1..6 others. nested: Nested / NestedOptional add, Nested scalar division, nested length mismatch. linalg: outer product (bit-exact), matrix-vector product (f64 with dot-product bound), transpose, hadamard3d. Distinct = distinct (op, rank, shape, family) descriptors."
+        "binary: (op in add/sub/mul/hadamard) x (rank 1..4) x (content family: random, special values incl. +-0, denormals, +-MAX, overflowing products, bit-pattern denormals, log-scaled) on random shapes with extents 1..5: result bit-equal to the IEEE f32 operation performed by the harness (any association for the scaled Hadamard product), bit-identical to the same operation on the numbers laid out as a vector (rank-generic), shape unchanged. mismatch: same ops + mean on operand pairs of different extent or rank (incl. equal element count in another rank): must panic and leave the left operand untouched. scalar: division by scalars incl. 0, tiny, huge + clamp. mean: k = 1..6 others. nested: Nested / NestedOptional add, Nested scalar division, nested length mismatch and member-shape mismatch. linalg: outer product (bit-exact), matrix-vector product (f64 with dot-product bound), transpose, hadamard3d. Distinct = distinct (op, rank, shape, family) descriptors."
     }
     fn assumptions(&self) -> Vec<&'static str> {
         vec!["hadamard3d is documented as not validating lengths, so it is only driven with equal shapes", "NaN results (inf-inf, 0*inf) are matched as NaN"]
